@@ -1331,4 +1331,49 @@ theorem hintsOK_of_no_defrag : ∀ (evs : List Event) (sv : Server) (now : Nat),
       · trivial
       · exact ih _ _ (fun e' he' => hno e' (List.mem_cons_of_mem _ he'))
 
+def Event.noHint : Event → Bool
+  | .step (some _) => false
+  | _ => true
+
+theorem hintsOK_of_noHint (evs : List Event) (sv : Server) (now : Nat) (h : evs.all Event.noHint = true) :
+    HintsOK sv evs now := by
+  apply hintsOK_of_no_defrag
+  intro e he cs hcs
+  have := List.all_eq_true.mp h e he
+  subst hcs
+  simp [Event.noHint] at this
+
+/-! ## non-vacuity: a concrete history that meets every hypothesis
+
+  Two slots, context 6, batch size 2, multi-user policy, shiftFn present.  Two concurrent requests (shared
+  prefix `1 2`, so their runs are interleaved in mixed batches), the first one generating past the context
+  (two successful shifts with `numKeep = 1`), the second one ending by numPredict; then a third request with
+  a stop string that reuses the prefix `1 2` of the released slot's record `1 2 5 4 2`. -/
+
+def demoSv : Server := { mkServer maxI32 2 6 2 true true 7 0 with stopEarliest := true, crCounted := true }
+
+def demoEvs : List Event :=
+  [.req 1 9 [] [1, 2, 3, 4], .req 0 3 [] [1, 2, 5]] ++ List.replicate 9 (.step none) ++
+  [.req 0 2 [['b']] [1, 2, 3]] ++ List.replicate 3 (.step none)
+
+/-- the history runs to the end; final records and ownership flags -/
+theorem demo_runs :
+    (runEvents demoSv demoEvs 1).map (fun sv => (sv.cache.slots.map (·.inputs), sv.cache.slots.map (·.inUse))) =
+      some ([[1, 1, 3, 4, 0, 3], [1, 2, 3, 2]], [false, false]) := by decide
+
+/-- after the 7th event (5 processBatch passes, both requests in every batch) the first slot's record has been
+    shifted (`1 2 3 4 0 3` → `1 4 0 3 1`) while the second request is still live -/
+theorem demo_mid :
+    (runEvents demoSv (demoEvs.take 8) 1).map (fun sv => (sv.cache.slots.map (·.inputs), sv.seqs.map (·.isSome))) =
+      some ([[1, 4, 0, 3, 1], [1, 2, 5, 4, 2]], [true, true]) := by decide
+
+example : ∃ sv, runEvents demoSv demoEvs 1 = some sv ∧ Coherent sv.cache ∧ Owned sv := by
+  cases h : runEvents demoSv demoEvs 1 with
+  | none => have := demo_runs; rw [h] at this; cases this
+  | some sv =>
+    exact ⟨sv, rfl, reachable_coherent_owned 2 6 2 true true 7 0 true true (by decide) demoEvs sv
+      (hintsOK_of_noHint _ _ _ (by decide)) h⟩
+
+example : ∃ ins k, newSequence 4 [1, 2, 3, 4, 5, 6, 7] 2 = .ok (ins, k) ∧ ins = [1, 2, 6, 7] ∧ k = 2 := ⟨_, _, rfl, rfl, rfl⟩
+
 end OllamaVerif.C07
